@@ -20,6 +20,9 @@ Qed.
 Lemma bridge_call_pending : forall s a b c d e f s' evs, do_bridge_call s a b c d e f = ROk (s', evs) -> pending s' = pending s.
 Proof. unfold do_bridge_call; intros. des H. des H. mon. des H. inv H. reflexivity. Qed.
 
+Lemma bridge_call_p_pending : forall s a b c d e f g s' evs, do_bridge_call_p s a b c d e f g = ROk (s', evs) -> pending s' = pending s.
+Proof. unfold do_bridge_call_p; intros. des H. mon. des H. inv H. reflexivity. Qed.
+
 Lemma batch_executed_keep : forall s token nonce s' evs b, NoDup (bnonces (batches s)) ->
   batch_executed s token nonce = ROk (s', evs) -> In b (batches s) ->
   ~ (b_token b = token /\ b_nonce b <= nonce) -> In b (batches s').
@@ -88,7 +91,7 @@ Proof.
   set (s' := step_state s o) in *. set (evs := snd (fst (step s o))) in *. clearbody s' evs.
   pose proof (inv_pool_nodup _ I) as NDp.
   destruct o as [sender dest amount fee token|id who|id who add token which|token which feercv basefee minfee auth
-                |token nonce h|h|sender refund coins to data memo|nonce ok h|e| |p]; simpl in SU, A.
+                |token nonce h|h|sender refund coins to data memo|sender refund value tokens to data memo|nonce ok h|e| |p]; simpl in SU, A.
   - (* Send *)
     pose proof (send_pending _ _ _ _ _ _ _ _ SU) as Ep.
     destruct (send_spec _ _ _ _ _ _ _ _ SU) as (_ & _ & _ & Eb & Ec & _ & _ & _ & Eo & -> & _).
@@ -158,6 +161,13 @@ Proof.
   - (* BridgeCall *)
     pose proof (bridge_call_pending _ _ _ _ _ _ _ _ _ SU) as Ep.
     destruct (bridge_call_spec _ _ _ _ _ _ _ _ _ SU) as (t & _ & _ & Ec & _ & Eb & _ & _ & _ & Eo & -> & _).
+    constructor; simpl; rewrite ?Eb, ?Eo, ?Ep; auto.
+    intros n T [E|Hin] Hr Ho.
+    + inv E. eexists. split; [rewrite Ec; apply in_or_app; right; simpl; eauto|]. simpl; auto.
+    + destruct (JC n T Hin Hr Ho) as (c & Hc & R'). exists c. split; auto. rewrite Ec. apply in_or_app; auto.
+  - (* BridgeCallP *)
+    pose proof (bridge_call_p_pending _ _ _ _ _ _ _ _ _ _ SU) as Ep.
+    destruct (bridge_call_p_spec _ _ _ _ _ _ _ _ _ _ SU) as (t & l0 & _ & _ & Ec & _ & Eb & _ & _ & _ & _ & _ & Eo & -> & _).
     constructor; simpl; rewrite ?Eb, ?Eo, ?Ep; auto.
     intros n T [E|Hin] Hr Ho.
     + inv E. eexists. split; [rewrite Ec; apply in_or_app; right; simpl; eauto|]. simpl; auto.
@@ -282,7 +292,7 @@ Proof.
   destruct (step_state_cases s o) as [(evs & SU)|E]; [|rewrite E; constructor; auto].
   set (s' := step_state s o) in *. clearbody s'. pose proof (inv_pool_nodup _ I) as NDp.
   destruct o as [sender dest amount fee token|id who|id who add token which|token which feercv basefee minfee auth
-                |token nonce h|h|sender refund coins to data memo|nonce ok h|e| |p]; simpl in SU, A, G.
+                |token nonce h|h|sender refund coins to data memo|sender refund value tokens to data memo|nonce ok h|e| |p]; simpl in SU, A, G.
   - pose proof (send_pending _ _ _ _ _ _ _ _ SU) as Ep.
     destruct (send_spec _ _ _ _ _ _ _ _ SU) as (_ & _ & _ & _ & Ec & _).
     constructor; rewrite ?Ep, ?Ec; auto.
@@ -312,6 +322,10 @@ Proof.
     constructor; rewrite KP, G; simpl; [intros; contradiction | constructor].
   - pose proof (bridge_call_pending _ _ _ _ _ _ _ _ _ SU) as Ep.
     destruct (bridge_call_spec _ _ _ _ _ _ _ _ _ SU) as (t & _ & _ & Ec & _).
+    constructor; rewrite ?Ep; auto.
+    intros e n ok Hin. destruct (GC e n ok Hin) as (c & Hc & En). exists c. split; auto. rewrite Ec. apply in_or_app; auto.
+  - pose proof (bridge_call_p_pending _ _ _ _ _ _ _ _ _ _ SU) as Ep.
+    destruct (bridge_call_p_spec _ _ _ _ _ _ _ _ _ _ SU) as (t & l0 & _ & _ & Ec & _).
     constructor; rewrite ?Ep; auto.
     intros e n ok Hin. destruct (GC e n ok Hin) as (c & Hc & En). exists c. split; auto. rewrite Ec. apply in_or_app; auto.
   - (* ObserveResult: the only parked result is the new one, and its call is not refunded by this step's clean-up *)
